@@ -136,7 +136,7 @@ theorem filtered_shape (impl : Impl) (src tgt : Tree) (p : Path) (f : List Path)
       split at h
       · rename_i extra he
         refine ⟨extra, he, ?_⟩
-        simp at h; exact h.symm
+        simp at h; rw [← h, List.append_assoc]
       · cases h
 
 theorem mem_tgtParents {cs : List Change} {c : Change} {p : Id} (hc : c ∈ cs) (hp : c.tgtParent = some p) :
@@ -189,7 +189,13 @@ theorem filter_complete (impl : Impl) (src tgt : Tree) (filt : List Path) (reqv 
     (h : iterChanges impl src tgt (some filt) false reqv = .ok cs) (i : Id) (hi : i ∈ selectIds src tgt filt)
     (c : Change) (hc : change src tgt i = some c) (hch : c.isChanged = true) : c ∈ cs := by
   cases filt with
-  | nil => simp [selectIds, unionNew, iterate, expandChildren] at hi
+  | nil =>
+    have hnil : ∀ n, iterate (expandChildren src tgt) n [] = [] := by
+      intro n
+      induction n with
+      | zero => rfl
+      | succ n ih => simpa [iterate, expandChildren, unionNew] using ih
+    simp [selectIds, unionNew, hnil] at hi
   | cons p f =>
     obtain ⟨extra, _, hcs⟩ := filtered_shape impl src tgt p f reqv cs h
     rw [hcs]
